@@ -408,3 +408,66 @@ func corpusHarvest() ([]cItem, error) {
 	}
 	return items, nil
 }
+
+// corpusWide: functions whose frames hold `w` locals before the ones a statement uses, for w at and across 127/128 and
+// 255/256 (slot numbers travel in packed operand fields), entered directly (F) and from a caller with as many live
+// locals (W, which checks that its own locals survived).  Main prints every result (for the Go toolchain).
+func cWideWidths(thorough bool) []int {
+	if thorough {
+		return []int{1, 100, 120, 126, 127, 128, 129, 130, 200, 254, 255, 256, 257, 300}
+	}
+	return []int{120, 127, 128, 129, 255, 256, 257}
+}
+
+func corpusWide(widths []int) []cItem {
+	var items []cItem
+	for _, w := range widths {
+		pkg := fmt.Sprintf("wide%03d", w)
+		var b strings.Builder
+		b.WriteString("package " + pkg + "\n\nimport \"fmt\"\n\ntype T struct {\n\tn int\n\tm int\n}\n\nfunc (t *T) Add(a int, b int) int {\n\tt.n += a\n\treturn t.n + b\n}\n\nfunc (t *T) Sum(xs ...int) int {\n\ts := t.n\n\tfor _, x := range xs {\n\t\ts += x\n\t}\n\treturn s\n}\n\nfunc id(a int) int {\n\treturn a\n}\n\n")
+		pad := func(prefix string, val int) {
+			for i := 0; i < w; i++ {
+				fmt.Fprintf(&b, "\t%s%d := %d\n", prefix, i, val+i)
+			}
+		}
+		padSum := func(prefix string) string {
+			var parts []string
+			for i := 0; i < w; i++ { // every one of them: the Go toolchain rejects an unused local
+				parts = append(parts, fmt.Sprintf("%s%d", prefix, i))
+			}
+			return strings.Join(parts, " + ")
+		}
+		bodies := []string{
+			"xs := []int{a, b, 3}\n\tfor k, v := range xs {\n\t\tr += k*10 + v\n\t}",
+			"m := map[string]int{\"k\": a}\n\tfor k, v := range m {\n\t\tr += len(k) + v\n\t}",
+			"for i, c := range \"héy\" {\n\t\tr += i + int(c)%7\n\t}",
+			"x, y := a, b\n\tx++\n\ty--\n\tx += 3\n\ty -= 2\n\tr = x*y + x - y + x/(y*y+1)",
+			"s := []int{1, 2, 3}\n\ts[1] = a\n\tm := map[string]int{}\n\tm[\"k\"] = b\n\tim := map[int]int{}\n\tim[2] = a + b\n\tr = s[1]*100 + m[\"k\"]*10 + im[2] + s[2]",
+			"t := &T{n: a}\n\tt.m = t.n + 2\n\tt.n++\n\tr = t.Add(b, 1)*100 + t.Sum(1, a, b) + t.m",
+			"switch a + b {\n\tcase 3:\n\t\tr = 1\n\tcase 7:\n\t\tr = 2\n\tdefault:\n\t\tr = 3\n\t}\n\tswitch x := id(a); {\n\tcase x > 2:\n\t\tr += 10\n\tdefault:\n\t\tr += 20\n\t}",
+			"f := func(p int) int {\n\t\tq := p * 2\n\t\treturn q + 1\n\t}\n\tg := id\n\tr = f(a)*10 + g(b)",
+			"for i := 0; i < 3; i++ {\n\t\tfor j, v := range []int{a, b} {\n\t\t\tif v == 0 {\n\t\t\t\tcontinue\n\t\t\t}\n\t\t\tr += i*j + v\n\t\t}\n\t\tif r > 1000 {\n\t\t\tbreak\n\t\t}\n\t}",
+			"var q, z int = a, b\n\tvar s string = \"ab\"\n\tq, z = z, q\n\ts += \"c\"\n\tr = q*100 + z*10 + len(s)",
+		}
+		var calls []cCall
+		var mainBody strings.Builder
+		for i, body := range bodies {
+			// the switch-with-init form is outside the supported subset: plain tagless switch instead
+			body = strings.Replace(body, "switch x := id(a); {", "x := id(a)\n\tswitch {", 1)
+			fmt.Fprintf(&b, "func F%d(a int, b int) int {\n", i)
+			pad("v", 1)
+			fmt.Fprintf(&b, "\tr := 0\n\t%s\n\treturn r*1000 + (%s)%%1000\n}\n\n", body, padSum("v"))
+			fmt.Fprintf(&b, "func W%d(a int, b int) int {\n", i)
+			pad("p", 5)
+			fmt.Fprintf(&b, "\tr := F%d(a, b)\n\tif %s != %d {\n\t\treturn 777777\n\t}\n\treturn r\n}\n\n", i, padSum("p"), 5*w+w*(w-1)/2)
+			for _, ab := range [][2]int{{1, 2}, {3, 4}, {0, 7}} {
+				args := []goatlang.Value{goatlang.Int(ab[0]), goatlang.Int(ab[1])}
+				calls = append(calls, cCall{Fn: pkg + fmt.Sprintf(".F%d", i), NRet: 1, Args: args}, cCall{Fn: pkg + fmt.Sprintf(".W%d", i), NRet: 1, Args: args})
+				fmt.Fprintf(&mainBody, "\tfmt.Println(%d, F%d(%d, %d), W%d(%d, %d))\n", i, i, ab[0], ab[1], i, ab[0], ab[1])
+			}
+		}
+		b.WriteString("func Main() {\n" + mainBody.String() + "}\n")
+		items = append(items, cItem{Name: "wide/" + pkg, Files: map[string]string{pkg + "/x.go": b.String()}, Dir: pkg, Calls: calls})
+	}
+	return items
+}
